@@ -215,13 +215,7 @@ def components(check: Check) -> None:
                           f"every {c.func.value.attr[:-1].replace('_', ' ')} that is read is added" if not odd else
                           f"a parsed component is added only when {odd[0]}: such a component is silently dropped by the import, the second export differs "
                           "from the first and the imported engine has a different structure", loc(f_, n))
-    # importer dispatch on component headers
-    ifn = p.func("FllImporter.engine")
-    check.analysed(ifn)
-    hdr = [s for s in ast.walk(ifn.analysis_node) if isinstance(s, ast.Set)]
-    names = {e.value for s in hdr for e in s.elts if isinstance(e, ast.Constant)}
-    check.require(names == {"Engine", "InputVariable", "OutputVariable", "RuleBlock"}, "T4", "FllImporter.engine/headers",
-                  f"blocks start at the four component headers (found {sorted(names)})", loc(ifn))
+    # (that blocks start at the four component headers is part of T13 flush: FllImporter.engine interpreted on model documents)
     # term line: name Class parameters
     tfn, _, tentries = exporter_table(p, "term")
     check.analysed(tfn)
@@ -381,18 +375,31 @@ def spellings(check: Check) -> None:
     check.require(ok_float, "T5", "FllExporter.format/float", "floats are written with Op.str (settings.decimals)", loc(fmt))
     b = p.func("FllImporter.boolean")
     check.analysed(b)
-    rb = Resolver(p, b)
-    pairs = {}
-    for n in rb.cfg.stmt_nodes():
-        if isinstance(n.ast, ast.Return) and isinstance(n.ast.value, ast.Constant):
-            for g, pol, gn in rb.cfg.must_guards(n):
-                t = rb.term(g, gn)
-                if t[0] == "cmp" and t[1] == ("==",) and pol:
-                    consts = [x[1] for x in t[2] if x[0] == "const"]
-                    if consts:
-                        pairs[consts[0]] = n.ast.value.value
-    check.require(pairs == {"true": True, "false": False}, "T5", "FllImporter.boolean/spelling",
-                  f"the importer reads true/false as True/False (found {pairs})", loc(b))
+    # by interpretation on concrete strings: "true" / "false" (also padded) read as True / False, anything else is a SyntaxError
+    from ..absexec import AbsExec, Internal, MObj, Raised, Unknown, _Return
+
+    got: dict[str, object] = {}
+    try:
+        for text in ("true", "false", " true ", "false\t", "True", "1", "", "yes", "truefalse"):
+            ex = AbsExec(b.qualname, {}, helpers={k: v for k, v in b.cls.methods.items() if k != "boolean"})
+            ex.concrete_strings = True
+            try:
+                try:
+                    ex.block(list(b.node.body), {b.params[0].name: MObj("FllImporter", {"separator": "\n"}), b.params[1].name: text})
+                    got[text] = None
+                except _Return as r_:
+                    got[text] = r_.value
+            except Raised as err:
+                got[text] = err.cls
+            except Internal as err:
+                got[text] = "!" + err.cls
+    except Unknown as u:
+        raise AnalysisError(str(u)) from None
+    want = {"true": True, "false": False, " true ": True, "false\t": False, "True": "SyntaxError", "1": "SyntaxError", "": "SyntaxError", "yes": "SyntaxError",
+            "truefalse": "SyntaxError"}
+    wrong = {k: v for k, v in got.items() if v is not want[k] and v != want[k] or type(v) is not type(want[k])}
+    check.require(not wrong, "T5", "FllImporter.boolean/spelling", "the importer reads true / false (surrounded by blanks or not) as True / False and rejects anything else "
+                  "with a SyntaxError" if not wrong else f"FllImporter.boolean gives {wrong} (specified {({k: want[k] for k in wrong})})", loc(b), exhaustive=True, cases=len(want))
     for m in ("tnorm", "snorm", "activation", "defuzzifier"):
         named_component_reader(check, m)
     for m in ("norm", "activation", "defuzzifier"):
